@@ -2,5 +2,5 @@ SPECIFICATION Spec
 CONSTANTS
   N = 5
   XMax = 6
-INVARIANTS Inv_Increasing Inv_CodeIsSpec Inv_Knot Inv_Between Emit
+INVARIANTS Inv_Increasing Inv_CodeIsSpec Inv_Knot Inv_Between Inv_ScaleInvariant Emit
 CHECK_DEADLOCK FALSE
